@@ -73,6 +73,7 @@ PROP = {'gen': [],
               'automata) + model/implementation correspondence with crash observation in a child process',
  'design_ref': 'DESIGN.md 6.2',
  'n_quick': 2800,
+ 'escalate': 2,
  'n_thorough': 20000,
  'shard': 125,
  'level': 'proof',
@@ -80,11 +81,12 @@ PROP = {'gen': [],
                   'hand-written models Decoder/Payload.v (payload decoders, number_decode, utf8_decode) and Decoder/Events.v (wrappers, '
                   'Utf8Decoder), tied to the code by the correspondence run',
                   'verif-hooks dump of the compiled automata and translate/dfa.py (Gen/ProdDFA.v: tables, matcher order, DecMode code '
-                  'lists, CUBE / GREYS / COLORS)',
+                  'lists, CUBE / GREYS / COLORS; listing of the methods of the decoder types, any other surface is reported)',
                   'opaque total functions: rasterize RGBA::from_str, String::from_utf8_lossy, FaceModify::apply / FaceAttrs (only the colours '
                   'of FaceGet are modelled)',
                   HARNESS],
- 'assumptions': ['the BufRead handed to decode exposes all bytes of the read in one fill_buf (Cursor, &[u8])',
+ 'assumptions': ['the BufRead handed to decode exposes all bytes of the read in one fill_buf (Cursor, &[u8]); other readers (one byte / a window '
+                 'at a time, empty reads, Interrupted / TimedOut errors, decoder reused after Err) are exercised by the correspondence run only',
                  '64-bit target: usize = u64',
                  'kitty keyboard modifiers are a bit set: KeyMod::from_bits keeps the nine known bits of (m - 1) by design (a mask, not a '
                  'wrapped numeric field); an SGR mouse button code is a bit field whose bits above 7 are ignored',
